@@ -11,12 +11,12 @@ ACKS = ("PUBACK", "PUBREC", "PUBCOMP", "SUBACK", "UNSUBACK")
 
 # weight tables: step kind -> weight, by flavour
 FLAVOURS = {
-    "mixed": dict(pub=10, sub=4, unsub=3, ack=14, dupack=2, stray=2, early=1, inpub=5, inrel=4,
+    "mixed": dict(pub=10, sub=4, unsub=3, ack=14, dupack=2, stray=2, early=1, cross=2, inpub=5, inrel=4,
                   tick=5, adv=3, setwin=2, settimeout=1, setbw=1, lose=2, disconnect=1, pingresp=1,
                   reconnect=6, stale=1),
-    "pubflow": dict(pub=16, ack=16, dupack=3, stray=2, early=2, tick=6, adv=2, setwin=3, lose=1,
+    "pubflow": dict(pub=16, ack=16, dupack=3, stray=2, early=2, cross=2, tick=6, adv=2, setwin=3, lose=1,
                     reconnect=5, settimeout=1, setbw=1),
-    "subflow": dict(sub=8, unsub=7, ack=10, dupack=2, stray=2, inpub=8, inrel=7, tick=4, adv=2,
+    "subflow": dict(sub=8, unsub=7, ack=10, dupack=2, stray=2, cross=2, inpub=8, inrel=7, tick=4, adv=2,
                     setwin=3, lose=1, reconnect=5),
     "lossy": dict(pub=10, sub=3, unsub=3, ack=8, inpub=3, inrel=2, tick=3, adv=1, setwin=1, lose=6,
                   disconnect=2, reconnect=10, stale=2),
@@ -53,7 +53,15 @@ class Walker(object):
         steps.append(("connect", a, clean, ka, lvl))
         if r.random() < 0.25:   # traffic before CONNACK
             steps.append(("pub", a, r.choice([0, 1, 2]), False, 2))
-        if r.random() < 0.93:
+            if r.random() < 0.3:
+                steps.append(("preack", a, r.choice(["PUBACK", "PUBREC"])))
+        x = r.random()
+        if x < 0.06:     # the broker refuses, and closes as it must (now or a little later)
+            steps.append(("connack", a, r.choice([1, 2, 3, 4, 5, 128]), False))
+            if r.random() < 0.5:
+                steps.append(("adv", r.choice([0.5, 6, 30])))
+            steps.append(("lose", a, "done"))
+        elif x < 0.94:
             steps.append(("connack", a, 0, r.random() < 0.3))
         for s in steps:
             w.step(s)
@@ -93,6 +101,8 @@ class Walker(object):
             return ("stray", a, r.choice(ACKS))
         if k == "early":
             return ("early", a, "PUBCOMP")
+        if k == "cross":
+            return ("cross", a, r.choice(ACKS))
         if k == "inpub":
             return ("inpub", a, r.choice([0, 1, 2, 2]), r.random() < 0.3, r.random() < 0.3,
                     r.choice(["new", "new", "reuse", "repeat"]), r.choice([0, 2, 300]),
@@ -153,4 +163,5 @@ def random_cfg(rng, profile=None, model=None):
                re_pub_on_fail=rng.random() < 0.15,
                re_pub_on_connmade=rng.random() < 0.1,
                re_echo=rng.random() < 0.1,
-               re_connect_on_disc=rng.random() < 0.1)
+               re_connect_on_disc=rng.random() < 0.1,
+               re_disc_on=rng.choice([None] * 10 + ["ack", "suback", "onpublish", "connmade", "connected"]))
